@@ -101,7 +101,10 @@ def explore(item):
     ctx = Ctx(timeout_ms, max_paths=60000)
 
     def path(c):
-        mm = metamodel_from_str(GRAMMAR)
+        # with_builtins == 2: the (still empty) mapping is handed to the meta-model at creation and filled
+        # afterwards through the caller's reference; == True: assigned to metamodel.builtins
+        given = SymBuiltins([]) if with_builtins == 2 else None
+        mm = metamodel_from_str(GRAMMAR, builtins=given) if given is not None else metamodel_from_str(GRAMMAR)
         st = {}
 
         def substitute(model):
@@ -144,7 +147,10 @@ def explore(item):
                 b1.name, b2.name = k1, k2
                 st['builtins'] = [(k1, b1), (k2, b2)]
                 c.assume(k1.t != k2.t)      # a real dict has distinct keys
-                mm.builtins = SymBuiltins(st['builtins'])
+                if given is not None:
+                    given.slots = st['builtins']
+                else:
+                    mm.builtins = SymBuiltins(st['builtins'])
             else:
                 st['builtins'] = []
         try:
@@ -235,7 +241,8 @@ def replay_concrete(mi, with_builtins, assignment):
     """fresh real load with concrete names; returns (violates, detail)"""
     from textx import metamodel_from_str, get_children, textx_isinstance
     from textx.exceptions import TextXSemanticError
-    mm = metamodel_from_str(GRAMMAR)
+    given = {} if with_builtins == 2 else None
+    mm = metamodel_from_str(GRAMMAR, builtins=given) if given is not None else metamodel_from_str(GRAMMAR)
     holder = {}
     orig_clone = mm._parser_blueprint.clone
 
@@ -260,7 +267,10 @@ def replay_concrete(mi, with_builtins, assignment):
             b1, b2 = mm['Sig'](), mm['Port']()
             b1.name, b2.name = assignment['builtins']
             st['b'] = [(b1.name, b1), (b2.name, b2)]
-            mm.builtins = dict(st['b'])
+            if given is not None:
+                given.update(dict(st['b']))
+            else:
+                mm.builtins = dict(st['b'])
         else:
             st['b'] = []
     try:
@@ -300,7 +310,7 @@ def main():
     quick = chk.tier == 'quick'
     models = [0, 1, 2] if quick else list(range(len(MODELS)))
     timeout_ms = 20000 if quick else 120000
-    items = [(mi, b, timeout_ms) for mi in models for b in (False, True)]
+    items = [(mi, b, timeout_ms) for mi in models for b in (False, True, 2)]
     results = pmap(explore, items)
     chk.cov['functions_encoded'] = src_hash(M.ReferenceResolver.resolve_one_step, P.PlainName.__call__,
                                             M.get_children, M.textx_isinstance)
@@ -351,7 +361,7 @@ def main():
     chk.cov['discharged'] = dis
     if chk.cov['model_mismatches']:
         chk.harness_error('a solver counterexample did not reproduce with concrete names')
-    return chk.finish('one exploration per (model, builtins on/off); every feasible path of the real resolution code '
+    return chk.finish('one exploration per (model, builtins off / assigned / given at creation and filled later); every feasible path of the real resolution code '
                       'over symbolic names ends in z3 validity queries, one per reference')
 
 
